@@ -120,7 +120,19 @@ def replay_svnf(args):
     return False, f"nf={nf}, SV nf={seen_nf}"
 
 
-REPLAYERS = {"nf": replay_nf, "svnf": replay_svnf}
+def replay_beta(args):
+    from yadism.esf import scale_variations as svmod
+
+    shared = svmod.ScaleVariations(order=args["order"], interpolator=None, activate_ren=True, activate_fact=False)
+    for nf in args["seq"]:
+        rc = shared.ren_coeffs(nf)
+        b0 = 11.0 - 2.0 * nf / 3.0
+        if abs(rc[(2, 1, 1)] - b0) > 1e-12:
+            return True, f"after the sequence {args['seq']}: the a_s^2 ln muR coefficient for nf={nf} is {rc[(2, 1, 1)]}, beta0(nf) = {b0}"
+    return False, "beta0 follows nf"
+
+
+REPLAYERS = {"nf": replay_nf, "svnf": replay_svnf, "beta": replay_beta}
 
 
 def vals(ctx, model, tag=""):
@@ -226,6 +238,31 @@ def run(chk, only=None):
                     else:
                         chk.report(f"svnf:{scheme}:{nfff}", f"scale-variation manager got nf={seen_nf}, coefficient functions use {nf}", "svnf",
                                    dict(scheme=scheme, nfff=nfff, values=vals(ctx, None)))
+    # ---- the same nf governs the beta coefficients of the scale-variation terms, whatever was computed before ----
+    if only in (None, "beta"):
+        from yadism.esf import scale_variations as svmod
+
+        for order, seq in itertools.product((2, 3), ([3, 5, 4, 3, 6], [6, 4, 5, 3])):
+            shared = svmod.ScaleVariations(order=order, interpolator=None, activate_ren=True, activate_fact=False)
+            with Ctx(chk.seed) as ctx:
+                w = ctx.var("w", None, None)
+                c = ctx.var("c", None, None)
+                for nf in seq:
+                    partons = np.empty((2, 1), dtype=object)
+                    partons[:, 0] = [w, 2 * w]
+                    val = np.empty((1, 1), dtype=object)
+                    val[0, 0] = c
+                    kers = shared.apply_raw_diff_scale_variations([((1, 0, 0, 0), (partons, val, val))], nf)
+                    got = {k_[0]: k_[1][0][0, 0] for k_ in kers}
+                    b0 = real.Fr(11) - real.Fr(2 * nf, 3)
+                    b1 = real.Fr(102) - real.Fr(38 * nf, 3)
+                    want = {(2, 0, 1, 0): b0 * w}
+                    if order >= 3:
+                        want.update({(3, 0, 1, 0): b1 * w, (3, 0, 2, 0): b0 * b0 * w})
+                    for key_, ref in want.items():
+                        chk.prove(f"beta:{order}:{seq}:nf{nf}:{key_}", S.lift(got.get(key_, 0)).t == S.lift(ref).t, ctx.facts(),
+                                  key=f"beta:nf:{key_}", what=f"scale-variation coefficient {key_} is not the beta coefficient of nf={nf} (sequence {seq})",
+                                  replay=lambda m, order=order, seq=seq: ("beta", dict(order=order, seq=seq)))
     # ---- Engine B: update_fns for every int NfFF ----
     if only in (None, "ch"):
         for target in ("yv.ch.h_fns.check_fns", "yv.ch.h_fns.check_unknown_scheme"):
